@@ -137,6 +137,24 @@ PROPS["C17"] = {
     "level_note": "Trusted: Lean kernel, translator (protocol version, error table, presence of the re-check), harness. The transport code behind a valid request is outside this model.",
     "technique": "Lean 4 proof (decision table by cases + invariants over all interleavings) + exhaustive matrix correspondence",
 }
+PROPS["C04"] = {
+    "lean": ["SioVerif.Props.C04"],
+    "components": ["rooms"],
+    "facts": [],
+    "rule": "the real in-memory adapter behind its public interfaces (own SocketStore and Socket implementations): exhaustively every 4th (thorough: every) membership "
+            "matrix of 3 sockets x 3 rooms x every (T,E) pair; random histories of 3..60 operations (connect, join several rooms, leave, disconnect, SocketsJoin, "
+            "SocketsLeave, DisconnectSockets with their own (T,E)) over 5 sockets, 5 rooms and the id rooms, each followed by a broadcast; broadcasts issued through a "
+            "socket; joins/leaves performed from inside the delivery of a running broadcast. Non-trivial = >=2 targets or a history of >4 operations; distinct by request line.",
+    "trusted_base": EXT + ["Go map iteration: an entry present throughout an iteration is produced exactly once (spec); mapset's Each iterates the underlying map"],
+    "assumptions": ["membership changes concurrent with a broadcast are judged under interval semantics by direct predicates; the theorems are about the atomic target computation"],
+    "partial": ["'a broadcast issued through a socket never reaches that socket' holds while the socket is in its own id room (finding D24 otherwise)"],
+    "level_text": "Lean 4 theorems over an executable model of the adapter's two room indexes and of apply's target computation, for every history of join / leave / "
+                  "leave-all: the indexes stay inverse of each other with no empty room and no duplicates; membership after each operation is exactly the net effect; the "
+                  "targets of a broadcast are duplicate-free and exactly the live sockets in some room of T (all known sockets when T is empty) and in no room of E; a sender "
+                  "in its own id room is never a target; a disconnected socket is in no room. The model is compared with the real adapter on exhaustive small and random long histories.",
+    "level_note": "Trusted: Lean kernel, harness. One open finding (D24: sender exclusion is by id room).",
+    "technique": "Lean 4 proof (invariant + refinement over all histories) + exhaustive/random differential correspondence",
+}
 
 NOT_APPLICABLE = [
 ]
